@@ -298,6 +298,77 @@ def main():
                 out["extra_bad"].append({"exp": "one %s object used by two threads (A suspended %s while B runs)" % (oname, "between linearising and using" if lazy_split else "inside the function"),
                                          "plan": {}, "gaps": [], "res": res, "solo": want, "b_ok": False, "b": oname})
                 break
+    # ---- ONE linearisation (the pull-back of make_vjp, the product function of make_hvp / make_ggnvp) shared by two threads
+    #      (rows of a Jacobian computed in parallel): thread A is suspended inside a user-defined reverse rule DURING its
+    #      backward pass while thread B pulls another cotangent back through the same object from start to end ----
+    from autograd.extend import primitive as _prim, defvjp as _defvjp, defjvp as _defjvp
+    rule_hooks = threading.local()
+
+    @_prim
+    def scaled_tanh(y):
+        return 2.0 * onp.tanh(y)
+
+    def _st_vjp(ans, y):
+        def vjp(g):
+            h = getattr(rule_hooks, "hook", None)
+            if h is not None:
+                h()
+            return g * 2.0 / onp.cosh(y) ** 2
+        return vjp
+    _defvjp(scaled_tanh, _st_vjp)
+    _defjvp(scaled_tanh, lambda g, ans, y: g * 2.0 / onp.cosh(y) ** 2)
+
+    def chain(x):
+        y = anp.sin(x)
+        z = scaled_tanh(y) * x
+        return anp.cos(z) + y + scaled_tanh(z * 0.5)
+    lins = {
+        "make_vjp pull-back": lambda: _mv(chain)(xa_)[0],
+        "make_vjp pull-back after one complete use": lambda: (lambda pb: (pb(va_), pb)[1])(_mv(chain)(xa_)[0]),
+        "make_ggnvp product": lambda: _ggn(chain)(xa_),
+    }
+    for lname, mk in lins.items():
+        try:
+            want = {"A": onp.asarray(mk()(va_)).tolist(), "B": onp.asarray(mk()(vb_)).tolist()}
+        except Exception as ex:
+            out["extra_bad"].append({"exp": "shared linearisation %s fails alone: %r" % (lname, ex), "plan": {}, "gaps": [], "res": {}, "solo": {}, "b_ok": False, "b": lname})
+            continue
+        for pause_at in (1, 2):
+            lin = mk()
+            a_in, b_done = threading.Event(), threading.Event()
+            res = {}
+
+            def wa():
+                calls = []
+
+                def hook():
+                    calls.append(1)
+                    if len(calls) == pause_at:
+                        a_in.set()
+                        b_done.wait(10)
+                rule_hooks.hook = hook
+                try:
+                    res["A"] = onp.asarray(lin(va_)).tolist()
+                except Exception as ex:
+                    res["A"] = "raised " + repr(ex)
+                finally:
+                    a_in.set()
+
+            def wb():
+                a_in.wait(10)
+                try:
+                    res["B"] = onp.asarray(lin(vb_)).tolist()
+                except Exception as ex:
+                    res["B"] = "raised " + repr(ex)
+                finally:
+                    b_done.set()
+            t1, t2 = threading.Thread(target=wa, daemon=True), threading.Thread(target=wb, daemon=True)
+            t1.start(); t2.start(); t1.join(30); t2.join(30)
+            dist("shared-linearisation")
+            if res != want:
+                out["extra_bad"].append({"exp": "one %s used by two threads (A suspended inside a reverse rule, call %d of its backward pass, while B runs)" % (lname, pause_at),
+                                         "plan": {}, "gaps": [], "res": res, "solo": want, "b_ok": False, "b": lname})
+                break
     print(json.dumps(out))
 
 
